@@ -9,6 +9,8 @@
 //	incdec     i++ / i-- become i += 1 / i -= 1
 //	neg-if     if c { A } else { B } becomes if !(c) { B } else { A } (no else-if chains)
 //	rename-locals  every local variable, parameter and named result is renamed
+//	if-switch  an if / else-if / else chain becomes a tagless switch
+//	drop-else  if c { ...; return } else { B } becomes if c { ...; return }; B
 //	guard      a trailing if c { A } becomes if !(c) { return / continue }; A
 //	minmax     x := A; if B < x { x = B } becomes x := min(A, B)
 //	rangeint   for i := 0; i < N; i++ becomes for i := range N
@@ -349,6 +351,94 @@ func main() {
 					case *ast.RangeStmt:
 						if l, ok := tail(t.Body.List, &ast.BranchStmt{Tok: token.CONTINUE}); ok {
 							t.Body.List = l
+							n++
+						}
+					}
+				case "if-switch":
+					// if a {A} else if b {B} else {C}  ->  switch { case a: A; case b: B; default: C }
+					if blk, ok := node.(*ast.BlockStmt); ok {
+						for k, st := range blk.List {
+							is, ok := st.(*ast.IfStmt)
+							if !ok || is.Init != nil || is.Else == nil {
+								continue
+							}
+							var clauses []ast.Stmt
+							cur := is
+							okChain := true
+							for {
+								if cur.Init != nil {
+									okChain = false
+									break
+								}
+								// a `break` inside would now leave the switch instead of an enclosing loop
+								ast.Inspect(cur.Body, func(m ast.Node) bool {
+									if br, ok := m.(*ast.BranchStmt); ok && br.Tok == token.BREAK && br.Label == nil {
+										okChain = false
+									}
+									return true
+								})
+								clauses = append(clauses, &ast.CaseClause{List: []ast.Expr{cur.Cond}, Body: cur.Body.List})
+								if cur.Else == nil {
+									break
+								}
+								if next, ok := cur.Else.(*ast.IfStmt); ok {
+									cur = next
+									continue
+								}
+								eb := cur.Else.(*ast.BlockStmt)
+								ast.Inspect(eb, func(m ast.Node) bool {
+									if br, ok := m.(*ast.BranchStmt); ok && br.Tok == token.BREAK && br.Label == nil {
+										okChain = false
+									}
+									return true
+								})
+								clauses = append(clauses, &ast.CaseClause{Body: eb.List})
+								break
+							}
+							if !okChain || len(clauses) < 3 {
+								continue
+							}
+							blk.List[k] = &ast.SwitchStmt{Body: &ast.BlockStmt{List: clauses}}
+							n++
+						}
+					}
+				case "drop-else":
+					// if c { ...; return } else { B }  ->  if c { ...; return }; B   (golint's "drop this else")
+					if blk, ok := node.(*ast.BlockStmt); ok {
+						for k := 0; k < len(blk.List); k++ {
+							is, ok := blk.List[k].(*ast.IfStmt)
+							if !ok || is.Else == nil || len(is.Body.List) == 0 {
+								continue
+							}
+							eb, ok := is.Else.(*ast.BlockStmt)
+							if !ok {
+								continue
+							}
+							leaves := false
+							switch t := is.Body.List[len(is.Body.List)-1].(type) {
+							case *ast.ReturnStmt:
+								leaves = true
+							case *ast.BranchStmt:
+								leaves = t.Tok == token.CONTINUE || t.Tok == token.BREAK
+							}
+							if !leaves || is.Init != nil {
+								continue
+							}
+							declares := false
+							for _, st := range eb.List {
+								if as, ok := st.(*ast.AssignStmt); ok && as.Tok == token.DEFINE {
+									declares = true
+								}
+								if _, ok := st.(*ast.DeclStmt); ok {
+									declares = true
+								}
+							}
+							if declares {
+								continue
+							}
+							is.Else = nil
+							rest := append([]ast.Stmt{}, blk.List[k+1:]...)
+							blk.List = append(append(blk.List[:k+1], eb.List...), rest...)
 							n++
 						}
 					}
